@@ -19,18 +19,67 @@
    (it answers as scripted only when it is shown the request, otherwise it denies with message 99); per
    request the same observations as in class Case, plus what the hook process read in
    $BINDING_CONTEXT_PATH (binding, type, keys of snapshots, groupName, review.request.uid).  The model is
-   C14_CtxModel.ctx_request; every request is judged by C14_CtxSpec.P_ctx. *)
+   C14_CtxModel.ctx_request; every request is judged by C14_CtxSpec.P_ctx.
+
+   A fourth class, CSize: the SIZE of what the hook answers.  The scripted hooks write raw JSON responses
+   with any number of warnings of any length, messages and JSONPatch documents of any length; the whole
+   content of the answer is observed (every warning, the base64-decoded patch bytes, the message text)
+   and compared in full with C14_SizeModel.size_review; every request is judged by C14_SizeSpec.P_size.
+   Byte strings are written compactly in the cases files (type cb below), and expanded before anything
+   is compared. *)
 From Verif Require Import Common C14_Model C14_Spec C14_ConcModel C14_ConcSpec C14_CtxModel C14_CtxSpec.
+From Verif Require Import C14_SizeModel C14_SizeSpec.
 
 Definition req := (bytes * body * run * (answer * ran) * (bool * bool))%type.
 
+(* a compact byte string: a list of chunks; chunk (n, pat) stands for the first n bytes of
+   pat pat pat ... (so (length pat, pat) is pat itself, (n, [c]) is n times the byte c) *)
+Definition cb := list (N * bytes).
+
+Fixpoint cyc (n : nat) (pat cur : bytes) {struct n} : bytes :=
+  match n with
+  | O => []
+  | S n' =>
+    match cur with
+    | c :: r => c :: cyc n' pat r
+    | [] => match pat with [] => [] | c :: r => c :: cyc n' pat r end
+    end
+  end.
+Definition expand (c : cb) : bytes := flat_map (fun ch => cyc (N.to_nat (fst ch)) (snd ch) (snd ch)) c.
+
+Inductive zfile := ZEmpty | ZMalformed | ZResp (allowed : bool) (msg : cb) (warnings : list cb) (patch : cb).
+Inductive zmsg := ZClass (a : amsg) | ZText (t : cb).
+Inductive zanswer :=
+| ZStatus (code : N)
+| ZRev (uid : N) (allowed : bool) (code : N) (m : zmsg) (warnings : list cb) (patch : cb) (pt : bool).
+(* path, uid, the hook exits zero, its response file, (answer, who ran), and - when the harness also ran
+   the log step on its own (admission.ResponseFromBytes on the file, then Dump() on the result) - the
+   text Dump() returned and whether the Response was afterwards what it was before *)
+Definition zreq := (bytes * N * bool * zfile * (zanswer * ran) * option (cb * bool))%type.
+
+Definition sfile_of (f : zfile) : sfile :=
+  match f with
+  | ZEmpty => SEmpty
+  | ZMalformed => SMalformed
+  | ZResp a m w p => SResp (mkSResp a (expand m) (map expand w) (expand p))
+  end.
+Definition sanswer_of (a : zanswer) : sanswer :=
+  match a with
+  | ZStatus c => SStatus c
+  | ZRev uid al code m w p pt =>
+    SRev (mkSReview uid al code (match m with ZClass x => SMClass x | ZText t => SMText (expand t) end)
+                    (map expand w) (expand p) pt)
+  end.
+
 Inductive case :=
+| CSize (hooks : list hook) (regs : list reg) (reqs : list zreq)
 | Case (hooks : list hook) (regs : list reg) (reqs : list req)
 | CConc (hooks : list hook) (regs : list reg) (reqs : list (req * bool)) (moves : list N)
 | CCtx (hooks : list phook) (regs : list reg) (reqs : list (req * option rendered))
 | CCrash.
 
 Inductive mobs :=
+| MSize (regs : list reg) (outs : list (sanswer * ran))
 | MObs (regs : list reg) (answers : list (answer * ran * (bool * bool)))
 | MConc (regs : list reg) (outs : list (option cout))
 | MCtx (regs : list reg) (outs : list ((answer * ran) * (bool * bool) * option rendered))
@@ -43,6 +92,10 @@ Definition cout_of (x : req * bool) : cout :=
 
 Definition model_obs (c : case) : mobs :=
   match c with
+  | CSize hooks _ reqs =>
+    MSize (model_regs hooks)
+          (map (fun q => match q with (path, uid, ez, f, _, _) =>
+                           let o := size_review hooks path uid ez (sfile_of f) in (SRev (fst o), snd o) end) reqs)
   | Case hooks _ reqs =>
     MObs (model_regs hooks)
          (map (fun q => match q with (path, b, r, _, _) => (admit_request hooks path b r, admit_effects hooks path b r) end) reqs)
@@ -114,6 +167,44 @@ Definition ctx_out_eqb (m : (answer * ran) * (bool * bool) * option rendered) (x
   | ((_, _, _, o, e), shown) => obs_eqb (fst (fst m), snd (fst m)) (o, e) && option_eqb rendered_eqb (snd m) shown
   end.
 
+Definition smsg_eqb (a b : smsg) : bool :=
+  match a, b with
+  | SMClass x, SMClass y => amsg_eqb x y
+  | SMText x, SMText y => bytes_eqb x y
+  | _, _ => false
+  end.
+
+(* full equality: every warning, every byte of the patch and of the message *)
+Definition sreview_eqb (a b : sreview) : bool :=
+  N.eqb (sa_uid a) (sa_uid b) && Bool.eqb (sa_allowed a) (sa_allowed b) && N.eqb (sa_code a) (sa_code b)
+  && smsg_eqb (sa_msg a) (sa_msg b) && list_eqb bytes_eqb (sa_warnings a) (sa_warnings b)
+  && bytes_eqb (sa_patch a) (sa_patch b) && Bool.eqb (sa_patchtype a) (sa_patchtype b).
+
+Definition sanswer_eqb (a b : sanswer) : bool :=
+  match a, b with
+  | SStatus x, SStatus y => N.eqb x y
+  | SRev x, SRev y => sreview_eqb x y
+  | _, _ => false
+  end.
+
+Definition sresp_eqb (a b : sresp) : bool :=
+  Bool.eqb (s_allowed a) (s_allowed b) && bytes_eqb (s_msg a) (s_msg b)
+  && list_eqb bytes_eqb (s_warnings a) (s_warnings b) && bytes_eqb (s_patch a) (s_patch b).
+
+(* the log step on its own against C14_SizeModel.dump_step: the text, and the response afterwards *)
+Definition dump_agrees (f : zfile) (d : option (cb * bool)) : bool :=
+  match d with
+  | None => true
+  | Some (text, unchanged) =>
+    match sfile_of f with
+    | SResp r => bytes_eqb (fst (dump_step r)) (expand text) && Bool.eqb (sresp_eqb (snd (dump_step r)) r) unchanged
+    | _ => false
+    end
+  end.
+
+Definition size_out_eqb (m : sanswer * ran) (q : zreq) : bool :=
+  match q with (_, _, _, f, (a, who), d) => sanswer_eqb (fst m) (sanswer_of a) && ran_eqb (snd m) who && dump_agrees f d end.
+
 Fixpoint all2 {A B} (f : A -> B -> bool) (l : list A) (l' : list B) : bool :=
   match l, l' with
   | [], [] => true
@@ -123,6 +214,8 @@ Fixpoint all2 {A B} (f : A -> B -> bool) (l : list A) (l' : list B) : bool :=
 
 Definition agrees (c : case) : bool :=
   match c, model_obs c with
+  | CSize _ regs reqs, MSize mregs os =>
+    list_eqb reg_eqb mregs regs && all2 size_out_eqb os reqs
   | Case _ regs reqs, MObs mregs answers =>
     list_eqb reg_eqb mregs regs
     && list_eqb obs_eqb answers (map (fun q => match q with (_, _, _, o, e) => (o, e) end) reqs)
@@ -139,6 +232,8 @@ Definition P_req (regs : list reg) (q : req) : bool :=
 
 Definition P_case (c : case) : bool :=
   match c with
+  | CSize _ regs reqs =>
+    forallb (fun q => match q with (path, uid, ez, f, (a, who), _) => P_size regs path uid ez (sfile_of f) (sanswer_of a) who end) reqs
   | Case _ regs reqs => forallb (P_req regs) reqs
   | CConc _ regs reqs _ =>
     P_conc regs (map (fun x => (creq_of x, match x with ((_, _, _, o, _), _) => o end)) reqs)
